@@ -91,8 +91,10 @@ Fixpoint emit_value (v : value) (indent : nat) {struct v} : str :=
 Definition tag_str (tag : option str) : str := match tag with Some t => t | None => [] end.
 (* info_tag truthiness: `if lzv.info_tag:` -- an empty tag is falsy *)
 
+(* an empty comment is a bare `//` (no trailing blank) since /repo 3fa2dc1 *)
+Definition comment_line (c : str) : str := match c with [] => [c_slash; c_slash] | _ => s_comment_pre ++ c end.
 Definition emit_leading (comments : list str) (indent : nat) : list str :=
-  map (fun c => ind indent ++ s_comment_pre ++ c) comments.
+  map (fun c => ind indent ++ comment_line c) comments.
 
 Definition emit_trailing (c : option str) : str :=
   match c with
@@ -116,7 +118,7 @@ Fixpoint emit_node_lines (n : node) (indent : nat) {struct n} : list str :=
   match n with
   | NAssign key v leading trailing =>
       if is_absent v then [] else emit_assignment_lines key v leading trailing indent
-  | NComment text => [ind indent ++ s_comment_pre ++ text]
+  | NComment text => [ind indent ++ comment_line text]
   | NBlock key target children leading =>
       emit_leading leading indent ++
       [ind indent ++ key ++ (match truthy target with Some t => [c_lbr; 8594; 167] ++ t ++ [c_rbr] | None => [] end) ++ [c_colon]] ++
@@ -157,7 +159,7 @@ Definition emit_lines (sp : N -> bool) (d : doc) : list str :=
   (match dmeta d with
    | [] => []
    | m => match emit_meta_lines m with
-          | [] => [[]]                      (* emit_meta returned "" and is appended as an empty line *)
+          | [] => []                        (* emit_meta returned "": nothing is appended (since /repo: META fix) *)
           | ls => s_meta_hdr :: ls
           end
    end) ++
